@@ -23,6 +23,10 @@ struct HHigh { unsigned operator()(uint64_t k) const { return 0x80000000u | (uns
 struct HWide { uint64_t operator()(uint64_t k) const { return (k + 1) * 0x9E3779B97F4A7C15ull; } static constexpr const char *name = "64-bit"; }; // a hash wider than unsigned int: every path must reduce it the same way
 struct HSigned { int operator()(uint64_t k) const { return -(int)(k % 1000) - 1; } static constexpr const char *name = "negative-int"; };
 
+// a hash functor with state: the map has to use the functor object it was given for every operation, also when it grows
+struct HSeeded { uint64_t seed = 0; HSeeded() = default; explicit HSeeded(uint64_t s) : seed(s) {} unsigned operator()(uint64_t k) const { return (unsigned)(((k ^ seed) * 0x9E3779B97F4A7C15ull) >> 29); } static constexpr const char *name = "seeded(stateful)"; };
+template<typename H> static H make_hasher() { if constexpr (std::is_same_v<H, HSeeded>) return HSeeded(0x5DEECE66Dull); else return H(); }
+
 struct Ctx {
 	std::string type, trace;
 	bool bad = false;
@@ -49,7 +53,7 @@ struct Harness {
 	int next = 1;
 	size_t max_size_seen = 0;
 
-	Harness(Ctx &c_, std::vector<uint64_t> uni) : universe(std::move(uni)), c(c_) { as.owner = "hash_map"; g_elems.owner = "hash_map"; m = new Map(H(), TrackedAlloc(&as)); }
+	Harness(Ctx &c_, std::vector<uint64_t> uni) : universe(std::move(uni)), c(c_) { as.owner = "hash_map"; g_elems.owner = "hash_map"; m = new Map(make_hasher<H>(), TrackedAlloc(&as)); }
 	~Harness() { delete m; }
 	void destroy() { delete m; m = nullptr; }
 
@@ -230,6 +234,7 @@ int main(int argc, char **argv) {
 	run_family<HHigh, int>("int");
 	run_family<HWide, int>("int");
 	run_family<HSigned, int>("int");
+	run_family<HSeeded, int>("int"); run_family<HSeeded, Elem>("Elem");
 	if(want_mode("init-list")) { init_list_case<HIdentity>(); init_list_case<HConst>(); }
 	return finish();
 }
